@@ -5,7 +5,9 @@
 
   * values are two-state naturals; every stored value is < 2^width of its signal
   * every evaluator returns `Except String _`: unknown identifier, out-of-range select, memory
-    used as a vector, division by zero, non-converging combinational logic … are *errors*
+    used as a vector, non-converging combinational logic … are *errors*; `x / 0` and `x % 0` are 0
+    (the two-state convention of Verilator; unknown in four-state Verilog) so that a helper module's
+    `assign z = a / b` does not make a design unexecutable while `b` is at its reset value
   * `cycle` = set inputs → settle → run every triggered `always @(posedge …)` on the settled
     pre-edge state (blocking writes visible inside their own block only) → commit blocking then
     non-blocking writes in block/program order (last write wins) → settle
@@ -195,11 +197,14 @@ def evalC (sigs : Array Sig) (st : State) (W : Nat) : Expr → R Nat
     | .div => do
       let x ← evalC sigs st W a
       let y ← evalC sigs st W b
-      if y == 0 then throw "division by zero" else pure (x / y)
+      -- two-state convention for x / 0 (unknown in four-state Verilog): 0, as Verilator; a continuous
+      -- assignment `z = a / b` of a helper module must not make the whole design unexecutable while b
+      -- is still at its reset value.  Runs that USE such a quotient are excluded by the properties.
+      pure (if y == 0 then 0 else x / y)
     | .mod => do
       let x ← evalC sigs st W a
       let y ← evalC sigs st W b
-      if y == 0 then throw "modulo by zero" else pure (x % y)
+      pure (if y == 0 then 0 else x % y)
     | .band => do pure ((← evalC sigs st W a) &&& (← evalC sigs st W b))
     | .bor => do pure ((← evalC sigs st W a) ||| (← evalC sigs st W b))
     | .bxor => do pure ((← evalC sigs st W a) ^^^ (← evalC sigs st W b))
